@@ -28,8 +28,8 @@ from txdbus import client as t_client, error as t_error
 
 PROPERTY = 'C09'
 LEVEL = 'exploration'
-QUICK_RUNS = 8000
-QUICK_BUDGET_S = 90
+QUICK_RUNS = 60000
+QUICK_BUDGET_S = 60
 THOROUGH_BUDGET_S = 900
 RULE = ('A: address lists of 0-5 unix/tcp/nonce-tcp/junk entries x per-address '
         'refuse/late-fail/accept x server scripts (reject all, close after k handshake bytes, '
